@@ -330,11 +330,23 @@ def _build_call(c, desc, wrap, rng):
         X = c.X
         bs = c.bs
 
+        # further caller-owned arrays of the wrapper: annotator performances (incl. the all-equal case) and an array-valued
+        # number of annotators per sample; availability is restricted so that the preferred numbers have to be clipped
+        a_kind = ["none", "const", "vec", "mat"][(desc["seed"] >> 10) % 4]
+        A_perf = {"none": None, "const": np.full(3, 0.7), "vec": np.round(rng.rand(3), 2), "mat": np.round(rng.rand(c.n, 3), 2)}[a_kind]
+        nps = np.array([3, 2, 3]) if (desc["seed"] >> 12) % 2 else None
+
         def mk_kw(models):
             kw = full_kw(models)
             kw.pop("utility_weight", None)
             kw.pop("sample_weight", None)
-            return dict(kw, X=X.copy(), y=Y.copy(), batch_size=bs, return_utilities=True)
+            kw = dict(kw, X=X.copy(), y=Y.copy(), batch_size=bs, return_utilities=True)
+            if A_perf is not None:
+                kw["A_perf"] = A_perf.copy()
+            if nps is not None:
+                kw["n_annotators_per_sample"] = nps.copy()
+                kw["batch_size"] = max(bs, 4)
+            return kw
         comp = "SingleAnnotatorWrapper(%s)" % e.cls.__name__
         lazy = True
     else:
